@@ -240,6 +240,7 @@ CB(b, par, host, o) ==
     [] b.t = "mathb" -> me \cup (IF ~o.math THEN {"opt:math-off"} ELSE {}) \cup CI(b.k, "mathb", "", o)
     [] b.t = "tbl" -> me \cup (IF ~o.gfm THEN {"opt:gfm-off"} ELSE {}) \cup (IF ~o.tables THEN {"opt:tables-off"} ELSE {})
                          \cup (IF \E j \in 1..Len(b.k[1].k) : b.k[1].k[j].a # "n" THEN {"tbl:al"} ELSE {})
+                         \cup (IF Len(b.k) = 1 THEN {"tbl:head"} ELSE {})
                          \cup UNION {UNION {CI(b.k[i].k[j].k, IF o.gfm THEN "cell" ELSE "p", "", o) : j \in 1..Len(b.k[i].k)} : i \in 1..Len(b.k)}
     [] OTHER -> {"?"}
 
@@ -399,6 +400,9 @@ JudgeFid(ast, o, body) ==
         flds == (IF allweak THEN {} ELSE {"blocks"}) \cup WordDiff(ew, ow)
         ks == UNION {Classes(ast[i], o) : i \in mid}
     IN {[fld |-> f, ks |-> ks] : f \in flds}
+
+\* ConvertFile of a file that does not exist reports an error (it neither panics nor succeeds)
+ViolMissing(ret) == IF ret = "err" THEN {} ELSE {<<"missing-file", ret>>}
 
 \* ---- totality: what a conversion must not do ---------------------------------
 \* pk = facts about the saved package read by the independent reader:
